@@ -144,12 +144,15 @@ def parse_errors(tree, msgs, parse_t=parse_t, strip=None):
             out.append(("DUnusedSet", int(mm.group(1)))); continue
         if first == "unused provider set":
             out.append(("DUnusedSet", 0)); continue
-        mm = re.match(r'unused provider "\w+\.[pP](\d+)"$', first)
+        mm = re.match(r'unused provider "(\w+)\.(\w+)"$', first)
         if mm:
-            out.append(("DUnusedProv", int(mm.group(1)))); continue
-        mm = re.match(r'unused provider "\w+\.T(\d+)"$', first)
-        if mm:
-            k = int(mm.group(1))
+            m2 = re.fullmatch(r"[pP](\d+)", mm.group(2))
+            if m2:
+                out.append(("DUnusedProv", int(m2.group(1)))); continue
+            try:
+                k = parse_t(mm.group(1) + "." + mm.group(2)) // 2
+            except ValueError:
+                k = -1
             out.append(("DUnusedProv", find_direct(tree, "providers", lambda p: p["struct"] and p["outs"][0] // 2 == k))); continue
         mm = re.match(r"unused value of type (\S+)$", first)
         if mm:
@@ -438,6 +441,10 @@ def run_cases(cases, workdir, tag, shard=600):
     terms = []
     kinds = []
     for i, ((t, g, o), r) in enumerate(zip(cases, resps)):
+        if r.get("skipped"):
+            kinds.append(("skipped", 0))
+            stats["not-evaluated"] = stats.get("not-evaluated", 0) + 1
+            continue
         if "panic" in r:
             kinds.append(("panic", r["panic"]))
             terms.append(case_term(i, t, g, o, "(OErr StSet [DFuel; DFuel])"))
